@@ -300,18 +300,7 @@ def expect_edge(a, b, deep):
 
 class Lane(LaneBase):
     PROP = 'C07'
-    THEOREMS = [
-        'CG.C07.dontCare_eq', 'CG.C07.graphEq_total', 'CG.C07.graphEq_iff', 'CG.C07.deep_iff',
-        'CG.C07.graphEq_refl', 'CG.C07.graphEq_symm', 'CG.C07.graphEq_trans', 'CG.C07.graphNe_eq_not',
-        'CG.C07.graphEqOp_cross', 'CG.C07.deep_implies_shallow', 'CG.C07.graphEq_fun', 'CG.C07.skEq_total',
-        'CG.C07.skEq_iff', 'CG.C07.skEq_deep_iff', 'CG.C07.skEq_refl', 'CG.C07.skEq_symm', 'CG.C07.skEq_trans',
-        'CG.C07.skNe_eq_not', 'CG.C07.skEq_deep_implies_shallow', 'CG.C07.skEq_of_graphEq',
-        'CG.C07.nodeEq_iff', 'CG.C07.nodeEq_deep_iff', 'CG.C07.nodeEq_refl', 'CG.C07.nodeEq_symm',
-        'CG.C07.nodeEq_trans', 'CG.C07.nodeNe_eq_not', 'CG.C07.nodeEq_deep_implies_shallow',
-        'CG.C07.edgeEq_iff', 'CG.C07.edgeEq_deep_iff', 'CG.C07.edgeEq_refl', 'CG.C07.edgeEq_symm',
-        'CG.C07.edgeEq_trans', 'CG.C07.edgeEq_deep_symm', 'CG.C07.edgeEq_deep_trans', 'CG.C07.edgeNe_eq_not',
-        'CG.C07.edgeEq_deep_implies_shallow',
-    ]
+    THEOREMS = 'auto'
     AUDIT = 'CG/Audit/C07.lean'
     DIFF_IS_FAILURE = False
     EXHAUSTIVE = {'quick': False, 'thorough': False}
